@@ -429,6 +429,8 @@ def _run(V, work, tier):
                     raise MachineryError("JsonDoc.tla and Python's json disagree on the structure of %r: %r vs %r" % (doc, spec_shape(d["val"]), pval))
             for m in MODES:
                 rm = r[m]
+                if rm.get("again_same") is False:
+                    V.add(None, "json:load-string gives two different answers for %r when asked twice in a row (%s)" % (show, m), {"doc": show, "mode": m, "result": rm})
                 if not rm["bytes_same"]:
                     V.add(None, "load-string and load-bytes disagree on %r (%s)" % (show, m), {"doc": show, "mode": m, "result": rm})
                 if rm.get("panic"):
